@@ -66,6 +66,8 @@ class PPOps (R : Type) extends OfScientific R, Add R, Sub R, Mul R, Div R, Neg R
   An `f32` operation on `f32` operands is `r32 (a op b)`: for `+ - * /` and `sqrt` rounding the exact
   binary64 result again to binary32 equals the directly rounded binary32 result (53 ≥ 2·24 + 2). -/
   r32 : R → R
+  /-- `x as i32`: truncation toward zero, saturating at the `i32` range, NaN ↦ 0 -/
+  truncI32 : R → Int
   /-- `std::f64::consts::PI` -/
   pi : R
   /-- `f64::INFINITY`, `f64::NEG_INFINITY`, `f64::NAN` as *results* -/
